@@ -72,7 +72,7 @@ def workdir(prop):
     return d
 
 
-def capy_dump(src_name, cwd, extra_args=(), timeout=120):
+def capy_dump(src_name, cwd, extra_args=(), timeout=40):
     """capy build --verbose-binary all --no-exec; returns (rc, stdout+stderr)"""
     try:
         p = subprocess.run([CAPY, 'build', src_name, '--mod-dir', REPO, '--verbose-binary', 'all', '--no-exec',
